@@ -52,8 +52,8 @@ class SimpleRateLimiter(AbstractRateLimiter):
 
         self.logger: StructuredLogger = logger
         self.send_rate: float = send_rate
-        self.max_tokens: float = self.send_rate
-        self.tokens: float = self.max_tokens
+        self.max_tokens: float = max(self.send_rate, 1.0)
+        self.tokens: float = self.send_rate
         self.delay_for_tokens: float = 1.0
         self.updated_at: float = time.monotonic()
 
